@@ -92,6 +92,11 @@ def histories(draw, max_l=7, max_steps=8, ops=("keygen", "nd_keygen", "qualify",
             # the target list is another list permitted for the same parent; adjust has no omit-all notion of its own:
             # both lists are interpreted with the flag off, so only lists generated with the flag off are adjustable
             entries, _ = draw(build_attrs(keys[p]["pattern"], allow_omit_all=False))
+            if frm and draw(st.integers(0, 2)) == 0:
+                # the target keeps the first m entries of the current list (m = all of them: the same list again) and chooses afresh
+                # behind them: lists that share a prefix are what a caller extends or shortens in place (two views of one array)
+                m = draw(st.integers(1, len(frm)))
+                entries = [tuple(e) for e in frm[:m]] + [e for e in entries if e[0] > frm[m - 1][0]]
             step.update(key=ki, parent=p, frm=frm, to=entries, from_omit_all=oa_from)
             if oa_from:
                 # documented domain: adjust converts between two qualifications of the parent; with omit-all the free-slot set is not
